@@ -78,6 +78,11 @@ def fill_markdown(
     # Only format the content part if there's frontmatter
     if frontmatter:
         markdown_text = content
+        if not content.strip():
+            # Nothing but frontmatter (e.g. the opening `---` is never closed, so the
+            # whole document counts as frontmatter): return it unchanged apart from a
+            # final newline, instead of appending another empty line on every run.
+            return frontmatter if frontmatter.endswith("\n") else frontmatter + "\n"
 
     if dedent_input:
         markdown_text = dedent(markdown_text).strip()
